@@ -61,8 +61,10 @@ var c09 = core.Register(&core.Prop{
 func c09Configs(tier string, seed int64) []RaceCfg {
 	var out []RaceCfg
 	if tier != "thorough" {
-		for _, c := range [][3]int{{2, 1, 0}, {2, 2, 125}, {4, 4, 16}, {8, 16, 0}, {8, 2, 125}, {16, 16, 16}, {32, 16, 0}, {4, 1, 125}, {16, 4, 125}, {3, 16, 16}, {32, 4, 16}, {8, 8, 0}} {
-			out = append(out, RaceCfg{G: c[0], Procs: c[1], Yield: c[2], Iters: 2500, Trees: 220, Seed: seed})
+		for rep := 0; rep < 2; rep++ {
+			for _, c := range [][3]int{{2, 1, 0}, {2, 2, 125}, {4, 4, 16}, {8, 16, 0}, {8, 2, 125}, {16, 16, 16}, {32, 16, 0}, {4, 1, 125}, {16, 4, 125}, {3, 16, 16}, {32, 4, 16}, {8, 8, 0}} {
+				out = append(out, RaceCfg{G: c[0], Procs: c[1], Yield: c[2], Iters: 1500, Trees: 220, Seed: seed + int64(rep)*1000})
+			}
 		}
 		return out
 	}
@@ -107,6 +109,11 @@ var c09Share = core.Mon(c09, "concurrent-share", func(w *core.W, c *RaceCfg) {
 		}
 		srcs = append(srcs, b+"(n0)", b+"(s0, s1)", b+"(t0)", b+"(n0, n1)", b+"(s0, n0, n1)", b+"(arr, s0)")
 	}
+	// hot trees: every goroutine starts with these, in the same order, so that the FIRST use of whatever the
+	// evaluator builds lazily (per type, per pattern, per literal...) overlaps between goroutines
+	hot := []string{"st.A + len(st.S)", "pst.A", "ra.Qty * ra.Price", "rb.Qty * rb.Price", "ra.Note", "st.M.k", "z ?? 0", "b0 ? 100 : n1", "max(n0, 1.50)", "z || 0.0", "(n0, 0)", "2.50",
+		"regexp(s0, '^g[0-9]+')", "round(n0 / 7) + toInt(n1)", "lower(s0) + upper(s1)", "date(2020, 1, 31)", "typeof st", "[1, 2.50, 'x']", "m.k ?? tm.k", "nilp ?? nd ?? 7", "join(strs, ',')", "this.n0", "-n0 + -1", "!b0 || !!z"}
+	srcs = append(hot, srcs...)
 	srcs = append(srcs, gen.Corpus...)
 	for len(srcs) < c.Trees {
 		srcs = append(srcs, ref.Print(NoSelfStore(cfg.Node(rnd, 1+rnd.Intn(5)))))
@@ -187,7 +194,9 @@ var c09Share = core.Mon(c09, "concurrent-share", func(w *core.W, c *RaceCfg) {
 			<-start
 			for it := 0; it < c.Iters; it++ {
 				i := r.Intn(len(trees))
-				if it%4 == 0 {
+				if it < 3*len(hot) {
+					i = it % len(hot) // the same cold-start sequence in every goroutine
+				} else if it%4 == 0 {
 					// concentrate on few trees so that evaluations of one tree overlap
 					i = r.Intn(8) % len(trees)
 				}
